@@ -247,7 +247,7 @@ impl Server {
         for boxed_stream in listener.incoming() {
             if boxed_stream.is_err() {
                 eprintln!("unable to get TCP stream: {}", boxed_stream.err().unwrap());
-                return;
+                continue;
             }
 
             let stream = boxed_stream.unwrap();
@@ -259,13 +259,13 @@ impl Server {
                 print!("local addr: {}", boxed_local_addr.unwrap())
             } else {
                 eprintln!("\nunable to read local addr");
-                return;
+                continue;
             }
 
             let boxed_peer_addr = stream.peer_addr();
             if boxed_peer_addr.is_err() {
                 eprintln!("\nunable to read peer addr");
-                return;
+                continue;
             }
             let peer_addr = boxed_peer_addr.unwrap();
             print!(", peer addr: {}\n", peer_addr.to_string());
